@@ -164,29 +164,85 @@ theorem readsAs_of_decoded {rx rb : Bool} {reg : Nat} {a : Address} {req : AddrR
     rw [hM]
     exact this
 
+theorem isError_map {α β : Type} (f : α → β) (e : Except String α) : isError (e.map f) = isError e := by
+  cases e <;> rfl
+
 theorem rex_of_mk (rx rb : Bool) (len : Nat) (b0 b1 b2 b3 b4 b5 : UInt8) :
     Address.rex_x (mkAddr rx rb len b0 b1 b2 b3 b4 b5) = rx ∧ Address.rex_b (mkAddr rx rb len b0 b1 b2 b3 b4 b5) = rb := by
   cases rx <;> cases rb <;> exact ⟨by kernel_rfl, by kernel_rfl⟩
 
-/-- from the relative statement to `Address::offset`: every register, every base, every i32 displacement -/
-theorem AddrOkR.offset {m : Register → Address → X64 Unit} {spec : Register → AddrReq → SpecResult} {guard : Bool → Bool}
-    (h : AddrOkR m spec guard) (avx : Bool) (dest base : Fin 16) (disp : Int32) :
-    (guard avx = true → viaOffset avx (m (R dest)) (R base) disp = .ok (want (spec (R dest) (.off (R base) disp)))) ∧
-    (guard avx = false → isError (viaOffset avx (m (R dest)) (R base) disp) = true) := by
-  have hs := offset_shape base disp
-  have hi := fun tail => address_offset_decodes base ⟨dest.val % 8, by omega⟩ disp tail
-  unfold viaOffset
-  cases ha : Address.offset (R base) disp with
-  | error e => rw [ha] at hs; cases hs
+theorem index_shape (index : Fin 16) (hi : index.val ≠ 4) (scale : Fin 4) (disp : Int32) :
+    (Address.index (R index) (Sn scale.val) disp).map (shapeOK (decide (8 ≤ index.val)) false) = .ok true := by
+  revert hi scale
+  refine forall_fin16 (p := fun i => i ≠ 4 → ∀ scale : Fin 4,
+      (Address.index (Rn i) (Sn scale.val) disp).map (shapeOK (decide (8 ≤ i)) false) = .ok true)
+    ?_ ?_ ?_ ?_ ?_ ?_ ?_ ?_ ?_ ?_ ?_ ?_ ?_ ?_ ?_ ?_ index
+  all_goals intro hi
+  all_goals first
+    | (exfalso; omega)
+    | (refine forall_fin4 (p := fun s => (Address.index (Rn _) (Sn s) disp).map (shapeOK _ false) = .ok true) ?_ ?_ ?_ ?_
+       all_goals kernel_rfl)
+
+theorem rip_shape (disp : Int32) : (Address.rip disp).map (shapeOK false false) = .ok true := by
+  kernel_rfl
+
+/-- `m (address)` in a fresh assembler for an address produced by a constructor call: the emitted bytes, decoded -/
+def viaCtor (e : Address → Except String Dec.Bytes) (c : Except String Address) :
+    Except String (Option (Instr × Dec.Bytes)) :=
+  c.bind fun a => (e a).map decode
+
+/-- the per-method statement for one constructor call: guard ⇒ the bytes decode to the Spec entry for `req` with
+nothing left over; ¬guard ⇒ the call is refused -/
+def MethodOk (e : Address → Except String Dec.Bytes) (want' : AddrReq → Option (Instr × Dec.Bytes)) (g : Bool)
+    (c : Except String Address) (req : AddrReq) : Prop :=
+  (g = true → viaCtor e c = .ok (want' req)) ∧ (g = false → isError (viaCtor e c) = true)
+
+/-- The step from a relative statement (`AddrLeaf` for all six lengths) to a constructor: if the constructor's result
+has a legal shape with REX bits (rx, rb) and the decoder reads `emit_address`'s bytes for it as `M = req.opnd`
+(an `address_*_decodes` lemma), the method decodes to its Spec entry for `req`. -/
+theorem addr_combine {e : Address → Except String Dec.Bytes} {want' : AddrReq → Option (Instr × Dec.Bytes)} {g : Bool}
+    {reg : Nat} {rx rb : Bool} (hl : ∀ len : Fin 6, AddrLeaf e want' g reg rx rb (len.val + 1))
+    {c : Except String Address} {req : AddrReq} {M : Opnd}
+    (hs : c.map (shapeOK rx rb) = .ok true) (hM : req.opnd = M)
+    (hi : ∀ tail, addrDecoded reg c tail = .ok (some (reg, .mem M, tail))) :
+    (g = true → viaCtor e c = .ok (want' req)) ∧ (g = false → isError (viaCtor e c) = true) := by
+  unfold viaCtor
+  cases ha : c with
+  | error err => rw [ha] at hs; cases hs
   | ok a =>
     rw [ha] at hs hi
     simp only [Except.map, Except.ok.injEq] at hs
     obtain ⟨len, b0, b1, b2, b3, b4, b5, rfl⟩ := shape_mk hs
-    have hr := rex_of_mk false (decide (8 ≤ base.val)) (len.val + 1) b0 b1 b2 b3 b4 b5
-    have hR : ReadsAs false (decide (8 ≤ base.val)) (dest.val % 8) (mkAddr false (decide (8 ≤ base.val)) (len.val + 1) b0 b1 b2 b3 b4 b5)
-        (.off (R base) disp) :=
-      readsAs_of_decoded (by simp only [AddrReq.opnd, R_toNat]) hi hr.1 hr.2
-    have := h avx dest false (decide (8 ≤ base.val)) len b0 b1 b2 b3 b4 b5 (.off (R base) disp) hR
-    simpa only [bind, Except.bind] using this
+    have hr := rex_of_mk rx rb (len.val + 1) b0 b1 b2 b3 b4 b5
+    have hR : ReadsAs rx rb reg (mkAddr rx rb (len.val + 1) b0 b1 b2 b3 b4 b5) req :=
+      readsAs_of_decoded hM hi hr.1 hr.2
+    have := hl len b0 b1 b2 b3 b4 b5 req hR
+    simpa only [bind, Except.bind, isError_map] using this
+
+theorem Sn_scale : ∀ s : Fin 4, scaleOf (Sn s.val) = 2 ^ s.val := by decide
+
+/-- every base, every i32 displacement of `Address::offset` -/
+theorem leaf_offset {e : Address → Except String Dec.Bytes} {want' : AddrReq → Option (Instr × Dec.Bytes)} {g : Bool}
+    (reg : Fin 8) (base : Fin 16) (disp : Int32)
+    (hl : ∀ (rx rb : Bool) (len : Fin 6), AddrLeaf e want' g reg.val rx rb (len.val + 1)) :
+    MethodOk e want' g (Address.offset (R base) disp) (.off (R base) disp) :=
+  addr_combine (hl false (decide (8 ≤ base.val))) (offset_shape base disp)
+    (by simp only [AddrReq.opnd, R_toNat]) (fun tail => address_offset_decodes base reg disp tail)
+
+/-- every index but rsp, every scale, every i32 displacement of `Address::index` -/
+theorem leaf_index {e : Address → Except String Dec.Bytes} {want' : AddrReq → Option (Instr × Dec.Bytes)} {g : Bool}
+    (reg : Fin 8) (index : Fin 16) (hi : index.val ≠ 4) (scale : Fin 4) (disp : Int32)
+    (hl : ∀ (rx rb : Bool) (len : Fin 6), AddrLeaf e want' g reg.val rx rb (len.val + 1)) :
+    MethodOk e want' g (Address.index (R index) (Sn scale.val) disp) (.idx (R index) (Sn scale.val) disp) :=
+  addr_combine (hl (decide (8 ≤ index.val)) false) (index_shape index hi scale disp)
+    (by simp only [AddrReq.opnd, R_toNat, Sn_scale]) (fun tail => address_index_decodes index hi scale reg disp tail)
+
+/-- every i32 displacement of `Address::rip` -/
+theorem leaf_rip {e : Address → Except String Dec.Bytes} {want' : AddrReq → Option (Instr × Dec.Bytes)} {g : Bool}
+    (reg : Fin 8) (disp : Int32)
+    (hl : ∀ (rx rb : Bool) (len : Fin 6), AddrLeaf e want' g reg.val rx rb (len.val + 1)) :
+    MethodOk e want' g (Address.rip disp) (.rip disp) :=
+  addr_combine (hl false false) (rip_shape disp) (by simp only [AddrReq.opnd])
+    (fun tail => address_rip_decodes reg disp tail)
 
 end Dora.X64
